@@ -47,6 +47,9 @@ pub struct Knobs {
     /// BLOCKS its worker (a nested `block_on`): with every worker blocked no other task runs
     #[serde(default)]
     pub workers: u32,
+    /// the termination signal of this run is SIGTERM rather than SIGINT
+    #[serde(default)]
+    pub sigterm: bool,
     /// record full trace (false: only process, log, fs, signal and verdict events)
     #[serde(default)]
     pub full_trace: bool,
